@@ -32,6 +32,37 @@ func RandomLexInput(r *gen.Rng, maxParts int) []byte {
 	return out
 }
 
+// EscapeTruncations: quoted strings made of up to three escape pieces (simple escapes, \u escapes
+// incl. both halves of surrogate pairs, malformed ones), every prefix of each, alone and followed by
+// a line terminator: the lexer's look-ahead at the end of input.
+func EscapeTruncations() [][]byte {
+	pieces := []string{"\\uD83D", "\\uDE00", "\\u0041", "\\udbff", "\\n", "\\\\", "\\\"", "a", "é", "\\u00", "\\x"}
+	seen := map[string]bool{}
+	var out [][]byte
+	add := func(s string) {
+		if !seen[s] {
+			seen[s] = true
+			out = append(out, []byte(s))
+		}
+	}
+	var rec func(prefix string, depth int)
+	rec = func(prefix string, depth int) {
+		full := "\"" + prefix + "\""
+		for cut := 1; cut <= len(full); cut++ {
+			add(full[:cut])
+			add(full[:cut] + "\n")
+		}
+		if depth == 3 {
+			return
+		}
+		for _, p := range pieces {
+			rec(prefix+p, depth+1)
+		}
+	}
+	rec("", 0)
+	return out
+}
+
 func runC03(c *core.Ctx) {
 	const thm = "C03 lex_* theorems (props/C03.v); model op lex = Lexer.dump_lex"
 	c.ReplayKnown()
@@ -58,6 +89,9 @@ func runC03(c *core.Ctx) {
 	}
 	c.Exhaustive = true
 	c.ExhaustNote = fmt.Sprintf("all strings of <=%d symbols over the %d-symbol lexical alphabet; all block-string bodies of <=%d symbols over {SP,TAB,LF,CR,a,\"}", maxLen, len(LexAlphabet), maxBlock)
+	esc := EscapeTruncations()
+	c.Pool.ParFor(len(esc), func(w, i int) { c.CheckCase(w, "lex", thm, esc[i]) })
+	c.Count("escape_truncations", int64(len(esc)))
 	// random long inputs
 	inputs := make([][]byte, nRandom)
 	for i := range inputs {
